@@ -42,6 +42,7 @@ EXPLANATION = (
     "(G7) max_redirects reaches the client as the caller's own value. "
     "(G5, fresh) callers start the follower with a fresh chain. (G9) = C19.N1-N3 for the TOFU key of every hop."
     ' (G10) = C03.T2/T3 on the per-hop fetch: every literal verdict of TOFUDatabase.verify is handled, a failing one raises.'
+    ' (G11) = C03.T4. (G12) stateless client: the visited-URL chain and hop counter are per fetch. (G13) = C19.N7: the redirect target is fetched as the server sent it.'
 )
 
 SESSION = "client.session:GeminiClient"
@@ -332,5 +333,13 @@ def run(chk: Check) -> None:
     from .common import reuse
 
     reuse(chk, rule_t2_t3, "G10", "the pin check of a hop has an effect: every verdict TOFUDatabase.verify can return is handled by the per-hop fetch - a failing one raises before anything is requested from the redirect target (= C03.T2/T3)", ("T2", "T3"), connecting_functions(chk))
+    from .common import client_stateless
+    from .c03 import rule_t4
+
+    client_stateless(chk, "G12", "the visited-URL chain / hop counter of one fetch is shared with every other fetch in flight on the client: loop-free chains are refused and cycles outlive the connection bound")
+    reuse(chk, rule_t4, "G11", "the pin check of a hop compares with the pin stored now (= C03.T4): a verdict cached in memory accepts a redirect hop whose pin was replaced since", ("T4",))
+    from .common import redirect_target_fidelity
+
+    redirect_target_fidelity(chk, "G13")
     chk.trusted = ["CPython ast parser", "engine CFG"]
     chk.assumptions = ["a follower written in an idiom other than recursion-with-chain / for-range is reported as 'bound not extractable' (stated residual risk)"]
